@@ -6,6 +6,7 @@ given to the three parsing entry points and to the validity check; an independen
 statement (vlib/ref.py: accepts_condition / accepts_ahb_lenient) says what must be accepted and what must be rejected.
 """
 
+import os
 from contextvars import ContextVar
 
 from hypothesis import strategies as st
@@ -255,9 +256,71 @@ def strategy(tier):
     return build()
 
 
+# ------------------------------------------------------------------------------- coverage-guided stage (atheris)
+
+
+def enumerate_fuzz(tier, shard, nshards, seed):  # pylint:disable=unused-argument
+    yield {"fuzz": True, "seed": seed * 1000 + shard, "runs": FUZZ_RUNS, "shard": shard}
+
+
+FUZZ_RUNS = int(os.environ.get("VERIF_FUZZ_RUNS", "12000"))
+
+
+def check_fuzz(case):
+    """
+    Two libFuzzer campaigns per shard driving the strategy and oracle of stage `strings` through
+    hypothesis.fuzz_one_input: one from an empty corpus, one that starts from the first campaign's corpus with another
+    seed.  atheris is optional: if it cannot be imported the stage reports 'skipped' and nothing else.
+    """
+    import json
+    import shutil
+    import subprocess
+    import sys
+    import tempfile
+
+    root = os.path.dirname(os.path.dirname(os.path.dirname(os.path.abspath(__file__))))
+    deps = os.path.join(root, ".deps")
+    env = dict(os.environ, PYTHONPATH=deps + os.pathsep + root, PYTHONHASHSEED="0", VERIF_FUZZ_TIER="thorough")
+    probe = subprocess.run([sys.executable, "-c", "import atheris"], env=env, capture_output=True)
+    if probe.returncode != 0:
+        return {"skipped": True, "_bulk": {"evaluations": 0, "nontrivial": 0}}
+    work = tempfile.mkdtemp(prefix="verif-c02-fuzz-")
+    total = {"executions": 0, "nontrivial": 0, "labels": {}, "samples": []}
+    try:
+        corpus = os.path.join(work, "corpus")
+        os.mkdir(corpus)
+        for phase, seed in (("empty-corpus", case["seed"]), ("seeded-corpus", case["seed"] + 500)):
+            stats, failure = os.path.join(work, f"{phase}.stats.json"), os.path.join(work, f"{phase}.failure.json")
+            cmd = [sys.executable, os.path.join(root, "fuzz", "c02_target.py"), stats, failure, f"-runs={case['runs']}",
+                   f"-seed={seed}", "-max_len=4096", "-len_control=0", f"-artifact_prefix={work}/", corpus]  # fmt: skip
+            subprocess.run(cmd, env=env, capture_output=True, cwd=root)
+            if os.path.exists(failure):
+                found = json.load(open(failure, encoding="utf-8"))
+                from vlib.core import Violation
+
+                raise Violation(found["clause"], f"(found by the coverage-guided stage, {phase}) " + found["message"],
+                                {"replay_stage": "strings", "replay_case": found["case"]})  # fmt: skip
+            if os.path.exists(stats):
+                part = json.load(open(stats, encoding="utf-8"))
+                total["executions"] += part["executions"]
+                total["nontrivial"] += part["nontrivial"]
+                total["samples"] += [{"string": s, "phase": phase} for s in part["samples"][:1]]
+                for label, count in part["labels"].items():
+                    total["labels"][label] = total["labels"].get(label, 0) + count
+    finally:
+        shutil.rmtree(work, ignore_errors=True)
+    return {"skipped": False, "labels": total["labels"],
+            "_bulk": {"evaluations": total["executions"], "nontrivial": total["nontrivial"], "samples": total["samples"][:1]}}  # fmt: skip
+
+
+def classify_fuzz(case, info):  # pylint:disable=unused-argument
+    return (["skipped: atheris not installed"] if info.get("skipped") else ["campaign-pairs"]), True
+
+
 STAGES = [
     Stage(name="strings", kind="hyp", check=check, classify=classify, strategy=strategy,
           budget={"quick": 700, "thorough": 15000}, key=lambda c: c["s"],
           floors={"class=wellformed": 0.25, "class=nearmiss": 0.25, "cond-accepted": 0.1, "cond-rejected": 0.3,
                   "resolver-accepted": 0.2, "resolver-rejected": 0.3}),
+    Stage(name="fuzz", kind="enum", check=check_fuzz, classify=classify_fuzz, enumerate=enumerate_fuzz, tiers=("thorough",)),
 ]  # fmt: skip
